@@ -142,6 +142,8 @@ def run(ctx, progs):
         D("R2.1.address_in_range", prov(prog, GR, "address_in_range"),
           BIN("Lt", C("Address::raw_value", P(2)), C("GuestMemoryRegion::len", P(1))), want="addr.raw_value() < len()  (POS < LEN, strict)")
         b = prov(prog, GR, "check_address")
+        if not b:
+            ctx.ob("C02.anchor", "prov(prog, GR, 'check_address')", False, "", "anchor body not found (renamed or removed): the rule cannot be evaluated — fail closed")
         if b:
             rts = b.return_terms()
             ok = False
@@ -156,6 +158,8 @@ def run(ctx, progs):
           C("Option::and_then", C("Address::checked_add", P(2), P(3)), CLO("c")), [("c", C("GuestMemoryRegion::check_address", P(1), P(2)))],
           want="base.checked_add(offset).and_then(|a| self.check_address(a))")
         b = prov(prog, GR, "to_region_addr")
+        if not b:
+            ctx.ob("C02.anchor", "prov(prog, GR, 'to_region_addr')", False, "", "anchor body not found (renamed or removed): the rule cannot be evaluated — fail closed")
         if b:
             t = single(b)
             env = {}
@@ -170,6 +174,8 @@ def run(ctx, progs):
           C("Iterator::fold", C("Iterator::map", C("GuestMemory::iter", P(1)), FN("GuestMemoryRegion::last_addr")), AGG("GuestAddress", None, K(0)), FN("cmp::max")),
           want="iter().map(last_addr).fold(GuestAddress(0), max)")
         b = prov(prog, GM, "to_region_addr")
+        if not b:
+            ctx.ob("C02.anchor", "prov(prog, GM, 'to_region_addr')", False, "", "anchor body not found (renamed or removed): the rule cannot be evaluated — fail closed")
         if b:
             t = single(b)
             env = {}
@@ -183,6 +189,8 @@ def run(ctx, progs):
             ctx.ob("R2.3.to_region_addr", b.key, ok, b.where(), "find_region(addr).map(|r| (r, r.to_region_addr(addr).unwrap())): the found region paired with ITS OWN offset of the same addr")
         D("R2.3.address_in_range", prov(prog, GM, "address_in_range"), C("Option::is_some", C("GuestMemory::find_region", P(1), P(2))), want="find_region(addr).is_some()")
         b = prov(prog, GM, "check_address")
+        if not b:
+            ctx.ob("C02.anchor", "prov(prog, GM, 'check_address')", False, "", "anchor body not found (renamed or removed): the rule cannot be evaluated — fail closed")
         if b:
             t = single(b)
             env = {}
@@ -195,6 +203,8 @@ def run(ctx, progs):
           C("Option::and_then", C("Address::checked_add", P(2), P(3)), CLO("c")), [("c", C("GuestMemory::check_address", P(1), P(2)))],
           want="base.checked_add(offset).and_then(|a| self.check_address(a))")
         b = prov(prog, GM, "check_range")
+        if not b:
+            ctx.ob("C02.anchor", "prov(prog, GM, 'check_range')", False, "", "anchor body not found (renamed or removed): the rule cannot be evaluated — fail closed")
         if b:
             ok = False
             detail = ""
@@ -228,6 +238,8 @@ def run(ctx, progs):
         # ---------------- GuestRegionMmap / GuestMemoryMmap concrete methods
         REG = "mmap::GuestRegionMmap"
         b = (prog.find(adt=REG, trait=GR, name="get_host_address") or [None])[0]
+        if not b:
+            ctx.ob("C02.anchor", "(prog.find(adt=REG, trait=GR, name='get_host_address') or [None])[0]", False, "", "anchor body not found (renamed or removed): the rule cannot be evaluated — fail closed")
         if b:
             t = single(b)
             env = {}
@@ -238,6 +250,8 @@ def run(ctx, progs):
                     (ct is not None and match(C("mut_ptr::add", C("MmapRegion::as_ptr", F(P(1), "mapping")), C("Address::raw_value", P(2))), ct, {}))
             ctx.ob("R2.3.region_host_address", b.key, ok, b.where(), "check_address(addr) dominates; pointer = mapping.as_ptr() offset by that same checked address")
         b = (prog.find(adt=REG, trait=GR, name="get_slice") or [None])[0]
+        if not b:
+            ctx.ob("C02.anchor", "(prog.find(adt=REG, trait=GR, name='get_slice') or [None])[0]", False, "", "anchor body not found (renamed or removed): the rule cannot be evaluated — fail closed")
         if b:
             cs = [c for c in b.calls() if canon(c.target or "").endswith("VolatileMemory::get_slice") or canon(c.target or "").endswith("MmapRegion::get_slice")]
             ok = len(cs) == 1 and match(C("get_slice", F(P(1), "mapping"), C("Address::raw_value", P(2)), P(3)), deep_strip(b.call_term(cs[0].t, cs[0].pos, 0)), {})
